@@ -2,7 +2,7 @@
 """Regenerates MANIFEST.json from checks.py (single source of truth) and validates it."""
 import json, os, sys
 sys.path.insert(0, os.path.dirname(os.path.abspath(__file__)))
-from checks import CHECKS, NOT_APPLICABLE
+from checks import CHECKS, NOT_APPLICABLE, CLAIMED
 ALL = ["C%02d" % i for i in range(1, 21)]
 m = {
  "version": 1,
@@ -15,17 +15,17 @@ m = {
   "add_only": True,
  },
  "engines": [
-  {"name": "sched", "path": "lib/sched", "kind_free_text": "controlled cooperative scheduler + iterative preemption-bounded DFS over the real code (vsync/vatomic shims)", "serves_properties": sorted(p for p, c in CHECKS.items() if "sched" in c.get("engines", []))},
-  {"name": "space", "path": "harness/*", "kind_free_text": "explicit-state BFS / bounded-exhaustive enumeration over real objects, lock-step against Go reference models", "serves_properties": sorted(p for p, c in CHECKS.items() if "space" in c.get("engines", []))},
-  {"name": "crashfs", "path": "lib/crashfs", "kind_free_text": "crash-point (every prefix / dropped-unsynced subsets) and k-th-operation fault enumeration over the real persistence path via the vos shim", "serves_properties": sorted(p for p, c in CHECKS.items() if "crashfs" in c.get("engines", []))},
-  {"name": "authsim", "path": "lib/authsim", "kind_free_text": "scripted DNS universe (zone model + loopback authoritative servers with per-response transformers)", "serves_properties": sorted(p for p, c in CHECKS.items() if "authsim" in c.get("engines", []))},
+  {"name": "sched", "path": "lib/sched", "kind_free_text": "controlled cooperative scheduler + iterative preemption-bounded DFS over the real code (vsync/vatomic shims)", "serves_properties": sorted(p for p, c in CHECKS.items() if p in CLAIMED and "sched" in c.get("engines", []))},
+  {"name": "space", "path": "harness/*", "kind_free_text": "explicit-state BFS / bounded-exhaustive enumeration over real objects, lock-step against Go reference models", "serves_properties": sorted(p for p, c in CHECKS.items() if p in CLAIMED and "space" in c.get("engines", []))},
+  {"name": "crashfs", "path": "lib/crashfs", "kind_free_text": "crash-point (every prefix / dropped-unsynced subsets) and k-th-operation fault enumeration over the real persistence path via the vos shim", "serves_properties": sorted(p for p, c in CHECKS.items() if p in CLAIMED and "crashfs" in c.get("engines", []))},
+  {"name": "authsim", "path": "lib/authsim", "kind_free_text": "scripted DNS universe (zone model + loopback authoritative servers with per-response transformers)", "serves_properties": sorted(p for p, c in CHECKS.items() if p in CLAIMED and "authsim" in c.get("engines", []))},
  ],
  "checks": [],
  "not_applicable": [],
  "notes": "All checks: ./vk check <ID> --tier quick|thorough. Exit 0 held / 1 VIOLATION / 2 broken machinery. KNOWN_FINDINGS.json lists recorded genuine defects.",
 }
 for pid in ALL:
-    if pid in CHECKS:
+    if pid in CHECKS and pid in CLAIMED:
         c = CHECKS[pid]
         m["checks"].append({
             "property_id": pid,
